@@ -4,7 +4,7 @@
 
      senc   <ty> <val>     -> ok <bytes> | none                    spec_encode
      sdec   <ty> <bytes>   -> ok <val> <rest> | bad | end | trunc  spec_decode
-     wire   <ty>           -> 0/1   wire_ty       decty <ty> -> 0/1   dec_ty      decdev <ty> -> class
+     wire   <ty>           -> 0/1   wire_ty
      encdev <ty> <val>     -> deviation class (0 = none)           enc_dev
      fixed  <ty>           -> width | -1                           sfixed
      codes                 -> n (code name width|-1){n}            spec_codes ++ spec_uncoded
@@ -142,8 +142,6 @@ Definition handle7 (ts : list tok) : list tok :=
           else if is_sym "sdec" cmd then
             match r1 with [TBytes bs] => print_sres (spec_decode t bs) | _ => bad end
           else if is_sym "wire" cmd then match r1 with [] => [Proto.TInt (b2z (wire_ty t))] | _ => bad end
-          else if is_sym "decty" cmd then match r1 with [] => [Proto.TInt (b2z (dec_ty t))] | _ => bad end
-          else if is_sym "decdev" cmd then match r1 with [] => [Proto.TInt (dec_dev t)] | _ => bad end
           else if is_sym "fixed" cmd then
             match r1 with [] => [Proto.TInt (match sfixed t with Some w => Z.of_nat w | None => -1 end)] | _ => bad end
           else if is_sym "encdev" cmd then
